@@ -80,7 +80,7 @@ def cassert (cond : Bool) : CM α Unit := do
 /-- `Prefix.quantify`: `base ** exponent` on Python ints (a negative exponent gives a float). -/
 def Pfx.value (p : Pfx) : Mag α :=
   if p.exp ≥ 0 then .int ((p.base : Int) ^ p.exp.toNat)
-  else .flt (ipow (FloatLike.ofInt (p.base : Int) : α) p.exp)
+  else .flt (FloatLike.powInt (FloatLike.ofInt (p.base : Int) : α) p.exp)
 
 /-- `Unit.quantify`. -/
 def quantifyUnit (u : UId) : CM α (Qty α) := do
